@@ -51,6 +51,8 @@ def build_state(spec: Dict[str, Any]) -> c06.Real:
     """Run the history of `spec` on a fresh real driver and set config number / hash."""
     real = c06.Real()
     for op in spec["ops"]:
+        if op["k"] == "restart":  # C06 histories may restart; a state case saves and reloads once, at its end
+            continue
         if op["k"] == "setup":
             try:
                 real.driver.pair(bytes.fromhex(op["id"]), bytes.fromhex(op["key"]), b"\x01")
@@ -494,6 +496,7 @@ def run_history(ops: List[Dict[str, Any]], collect: bool = True):
         for i, op in enumerate(ops):
             st = real.state
             calls0 = real.persist_calls
+            sig0 = real.file_sig()
             saved = False
             k = op["k"]
             admin = next((u for u in st.paired_clients if st.is_admin(u)), None)
@@ -564,7 +567,7 @@ def run_history(ops: List[Dict[str, Any]], collect: bool = True):
                         fail = ("C14:restart-state-differs:" + diff[0], f"restart at step {i}" + (f" from a file without {stripped}" if stripped else "")
                                 + f": the reloaded {diff} differ from the state before the restart", i)
                     break
-            saved = saved or real.persist_calls > calls0
+            saved = saved or real.persist_calls > calls0 or (k not in ("restart", "strip") and real.file_sig() != sig0)
             trace.append([k, saved, len(real.state.paired_clients), len(real.state.uuid_to_bytes)])
             if not saved:
                 continue
